@@ -343,6 +343,7 @@ const stringAxioms = `(declare-fun utf8.enc1 (Int) Sq_Int)
 (assert (forall ((s Sq_Int)) (! (=> (> (Sq_Int.len s) 0) (> (Sq_Int.len (utf8.dec s)) 0)) :pattern ((utf8.dec s)))))
 (assert (forall ((s Sq_Int)) (! (=> (and (> (Sq_Int.len s) 0) (<= 0 (Sq_Int.at s 0)) (<= (Sq_Int.at s 0) 255)) (ite (< (Sq_Int.at s 0) 128) (= (Sq_Int.at (utf8.dec s) 0) (Sq_Int.at s 0)) (>= (Sq_Int.at (utf8.dec s) 0) 128))) :pattern ((utf8.dec s)))))
 (assert (forall ((s Sq_Int)) (! (=> (and (= (Sq_Int.len s) 1) (<= 0 (Sq_Int.at s 0)) (<= (Sq_Int.at s 0) 255)) (= (Sq_Int.len (utf8.dec s)) 1)) :pattern ((utf8.dec s)))))
+(assert (forall ((s Sq_Int)) (! (=> (and (>= (Sq_Int.len s) 2) (<= 0 (Sq_Int.at s 0)) (< (Sq_Int.at s 0) 128)) (>= (Sq_Int.len (utf8.dec s)) 2)) :pattern ((utf8.dec s)))))
 `
 
 func and(ts ...string) string {
